@@ -111,6 +111,18 @@ fn mutate_item(rng: &mut StdRng, it: &Value, desc: &Value, sub: usize, normal: &
             }
             Some(v)
         }
+        "set_txt_index" => {
+            // the last run of decimal digits of a literal text (the index of `\\player_7\\`) is replaced
+            if it["k"] != "txt" {
+                return None;
+            }
+            let end = normal.iter().rposition(|b| b.is_ascii_digit())?;
+            let mut start = end;
+            while start > 0 && normal[start - 1].is_ascii_digit() {
+                start -= 1;
+            }
+            Some([&normal[.. start], desc["v"].as_str()?.as_bytes(), &normal[end + 1 ..]].concat())
+        }
         "drop_terminator" => {
             match ty {
                 "cstr" => Some(normal[.. normal.len() - 1].to_vec()),
